@@ -989,7 +989,8 @@ fn handle_panic(e: Box<dyn std::any::Any + Send>) {
     }
     let loc = take_panic_loc();
     std::mem::forget(e);
-    if loc.contains("harness/src") || loc.contains("cxcheck") {
+    let file = loc.rsplit(" @ ").next().unwrap_or("");
+    if file.starts_with("src/") || loc.contains("harness/src") || loc.contains("cxcheck") {
         violate(View::Internal, &format!("harness panic: {}", loc));
     }
     violate(View::LibPanic, &format!("the library panicked: {}", loc));
